@@ -32,7 +32,7 @@ import lib
 from lib import coq_list
 
 COQ_TARGETS = ["theories/Proofs/SerdesLemmas.vo", "theories/Model/SerdesEq.vo"]
-THEOREMS = ["C14_decode_carriers", "C14_load_carriers", "C14_carriers", "C14_json_text", "C14_literal_text",
+THEOREMS = ["C14_full_refuted", "C14_decode_carriers", "C14_load_carriers", "C14_carriers", "C14_json_text", "C14_literal_text",
             "C14_load_json", "C14_load_plain_text", "C14_load_nontext",
             "C14_refuted_bytearray", "C14_refuted_literal", "C14_refuted_resource"]
 CARRIERS = ["CStr", "CBytes", "CBytearray", "CMemviewRO", "CMemviewRW"]
@@ -686,8 +686,8 @@ def correspond_routines(run: lib.Run, inputs, dist):
 def correspond(run: lib.Run):
     import warnings
     warnings.simplefilter("ignore")          # re.compile FutureWarnings, typelib's no-op warnings on odd inputs
-    n_rand = run.budget(130, 1500)
-    inputs, dist = input_pool(run, n_rand, run.budget(15, 150), with_deep=True)
+    n_rand = run.budget(130, 3000)
+    inputs, dist = input_pool(run, n_rand, run.budget(15, 300), with_deep=True)
     laws_sample(run, inputs)
     correspond_serdes(run, inputs, dist)
     sub = inputs if run.tier == "thorough" else [i for k, i in enumerate(inputs) if k % 3 == 0 or k < 40]
